@@ -1,5 +1,5 @@
 reg("C13", "simulations reproducible from their seed, conditioning honoured",
-    parts=[dict(harness="c13_simrepro", cases=dict(quick=1000, thorough=16000), timeout_case=60)],
+    parts=[dict(harness="c13_simrepro", cases=dict(quick=1000, thorough=16000), timeout_case=600)],
     rule="case = one configuration of one simulator family drawn from the case PRNG: simtub 45% (1-3 D, 1-2 variables, 1-2 "
          "structures of {spherical, exponential, gaussian, cubic, matern, stable, sincard, besselj} + optional nugget, "
          "anisotropy/rotation, grid or point target, non-conditional / conditional with unique or moving neighbourhood, "
@@ -12,9 +12,11 @@ reg("C13", "simulations reproducible from their seed, conditioning honoured",
          "wraps), 2^31-1, and <= 0 ('do not reseed': the documented global seed is then set before the call). Each "
          "configuration is executed 5 times on freshly built inputs: reference, back-to-back, after unrelated use of the "
          "generator, in a pristine process forked before the worker touched the library, and with another seed; outputs "
-         "are compared bit for bit. On the reference run: number of created columns, simulation ranks i != j differ, data "
+         "are compared bit for bit ('differs' is only asserted on continuous outputs: not on facies maps, and for Gibbs on "
+         "unconstrained samples). On the reference run: number of created columns, simulation ranks i != j differ, data "
          "honoured at coinciding targets (1e-7 relative), |S - K| <= 50 sK + 1e-6 against a long-double reference "
-         "(co)kriging (targets 2e-4 away from a datum make this sharp; unique neighbourhood, nbtuba >= 10), every Gibbs / "
+         "(co)kriging (targets 2e-4 away from a datum make this sharp; unique neighbourhood, nbtuba >= 10, only models whose "
+         "structures are simulated by smooth band processes: gaussian, cubic, sincard, besselj), every Gibbs / "
          "truncated-Gaussian value inside [L,U] (1e-10; equalities exact), plurigaussian facies at data nodes = observed "
          "facies, plurigaussian Gaussians at data nodes inside the thresholds of the observed facies (own threshold "
          "computation, 1e-3). distinct = distinct discrete signatures (family, dimension, variables, target kind, "
